@@ -63,6 +63,10 @@ def render(op):
         return "INSERT DATA { " + render_quads(op[1])[1:-1] + " " + render_quads(op[2])[1:-1] + " }"
     if k == "modify2":
         return "INSERT { " + render_quads(op[1])[1:-1] + " " + render_quads(op[2])[1:-1] + " } WHERE " + render_quads(op[3])
+    if k == "modifydup":
+        w = render_quads(op[3])
+        return (("DELETE " + render_quads(op[1]) + " ") if op[1] is not None else "") + "INSERT " + render_quads(op[2]) + \
+            " WHERE { " + w + " UNION " + w + " }"
     if k == "insertdata":
         return "INSERT DATA " + render_quads(op[1])
     if k == "deletedata":
@@ -158,7 +162,7 @@ def inst(quads, mu, default_name, fresh):
     return out
 
 
-def apply_ref(op, D, union_default):
+def apply_ref(op, D, union_default, dup=1):
     from rdflib import BNode
     D = {k: set(v) for k, v in D.items()}
     k = op[0]
@@ -166,6 +170,8 @@ def apply_ref(op, D, union_default):
         return apply_ref(("insertdata", op[1] + op[2]), D, union_default)
     if k == "modify2":
         return apply_ref(("modify", None, None, op[1] + op[2], op[3]), D, union_default)
+    if k == "modifydup":
+        return apply_ref(("modify", None, op[1], op[2], op[3]), D, union_default, dup=2)
     if k == "insertdata":
         for s, p, o, g in op[1]:
             D.setdefault(None if g is None else tt(g), set()).add((tt(s), tt(p), tt(o)))
@@ -180,7 +186,7 @@ def apply_ref(op, D, union_default):
     elif k == "modify":
         _, w, d, i, where = op
         dn = tt(w) if w else None
-        sols = match(where, D, dn, union_default and not w)
+        sols = match(where, D, dn, union_default and not w) * dup
         counter = [0]
         dels, ins = [], []
         for mu in sols:
@@ -263,7 +269,11 @@ def ops():
           ]
     # appended (indices above are used by the pair enumeration): the same graph named in two GRAPH blocks of one template
     TWICE = [("insertdata2", [(":a", ":p", ":c", ":g1")], [(":a", ":q", 1, ":g1")]),
-             ("modify2", [("?s", ":m", "?o", ":g1")], [("?o", ":m", "?s", ":g1")], P)]
+             ("modify2", [("?s", ":m", "?o", ":g1")], [("?o", ":m", "?s", ":g1")], P),
+             # the WHERE clause yields every solution twice (UNION of two equal branches): solutions are a multiset,
+             # a blank node in the template is fresh for each of them
+             ("modifydup", None, [("?s", ":r", "_:b", None), ("_:b", ":r", "?o", None)], P),
+             ("modifydup", [("?s", ":p", "?o", None)], [("?s", ":n", "_:x", ":g1")], P)]
     for k in ("clear", "drop"):
         for t in ("DEFAULT", "NAMED", "ALL", ":g1", ":g9"):
             O.append((k, t))
